@@ -135,6 +135,7 @@ type Conn struct {
 	writeErr    error
 	closeSent   bool
 	linkDown    bool // the transport failed (fault) or the peer went away abruptly
+	blackhole   bool // the path is dead but nobody knows yet: writes succeed, nothing arrives (half-open connection)
 	peerGone    bool // peer called Close(): EOF after the inbox is drained
 	isWriting   bool
 	subprotocol string
@@ -397,7 +398,7 @@ func (c *Conn) writeFrame(f Frame, control bool) error {
 		c.closeSent = true
 	}
 	c.Sent = append(c.Sent, f)
-	if !c.peer.closed {
+	if !c.peer.closed && !c.blackhole {
 		if l := latency(); l > 0 {
 			f.at = vnow() + l
 			// a timer whose only effect is to let virtual time reach the arrival time
@@ -415,6 +416,15 @@ func (c *Conn) Unstall() { c.stalled = false; c.StallWrites = nil }
 func (c *Conn) Inject(f Frame) {
 	simrt.TouchCell(&c.h)
 	c.inbox = append(c.inbox, f)
+}
+
+// Blackhole makes the path between the two ends swallow every frame in both directions without any error
+// (a half-open connection: cable pulled, peer power-cycled).
+func (c *Conn) Blackhole() {
+	simrt.TouchCell(&c.h)
+	simrt.TouchCell(&c.peer.h)
+	c.blackhole = true
+	c.peer.blackhole = true
 }
 
 // CutLink makes the transport fail in both directions (abrupt loss).
